@@ -66,6 +66,22 @@ def _work(args):
     return res
 
 
+def preflight(seed):
+    """start-up self-validation of the trusted front-end pieces (DESIGN 3/4): stub JVP rules vs JAX's own,
+    polynomial normal form vs z3, Fock oracle vs dense second quantisation"""
+    try:
+        from . import stubs, poly, fock
+
+        err = stubs.validate(seed)
+        if not err < 1e-10:
+            return f"linear-algebra stub rules disagree with JAX ({err:.2e})"
+        poly.self_test(seed)
+        fock.self_test()
+    except Exception as ex:
+        return f"{type(ex).__name__}: {ex}"
+    return None
+
+
 def load_known(check_id):
     """keys of open findings for this property from known_findings.txt"""
     known = {}
@@ -104,6 +120,10 @@ def main(argv=None):
         return 1 if out.get("violates") else 0
     check_id = a.check.upper()
     _init()
+    pf = preflight(seed)
+    if pf:
+        print(f"ENGINE-ERROR property={check_id} preflight: {pf}")
+        return 3
     mod = importlib.import_module(f"checks.{check_id.lower()}")
     t0 = time.time()
     cases = mod.cases(a.tier)
